@@ -126,7 +126,7 @@ def execute(case, ctx):
     kind, k, n, m = case["kind"], case["k"], case["n"], case["m"]
     planted = [list(a) for a in case["planted"]]
     sim = SimRandom(case["prng"]["seed"], case["prng"]["strategy"],
-                    case["prng"]["budget"], max_draws=400_000)
+                    case["prng"]["budget"], max_draws=80_000)
     klass = CNF if case["klass"] == "CNF" else OPB
     fn = cnfgen.RandomKCNF if kind == "kcnf" else cnfgen.RandomKXOR
     climsg._prefix = ""
